@@ -121,6 +121,19 @@ prop('C20',
   "Not decided: thread interleavings at bytecode granularity; behaviour of the OS socket; that the deferred sender eventually flushes.",
   "custom AST/CFG checker: def-use send-result discipline, lock-region membership, must-precede, path-sensitive reachability under constant environments, ownership of queue writers", "DESIGN.md 5/C20")
 
+prop('C02',
+  "Static analysis of /repo's current source: assigns the framing roles (buffer, cursor, wire length, available bytes, decode, delivery, "
+  "advance) on the controller-side and switch-side read loops by def-use, then decides the obligations of the loop invariant 'buffer = "
+  "unconsumed suffix; every complete prefix message delivered once, in order': received bytes are appended and every other writer of the "
+  "reassembly buffers drops a prefix only; each header index / struct read at cursor+k is dominated by guards proving at least that many "
+  "bytes available; decode and delivery are dominated by available >= wire length; the cursor advances by exactly the wire length "
+  "(asserted equality or consume(wire length)) exactly once on every path that continues after a decode; at most one delivery per decode "
+  "and none on the incomplete-message exit; the residual is kept (prefix trimmed on every normal exit with a non-zero cursor / view "
+  "re-peeked per iteration); every arrival of bytes reaches the framing loop. Decides these obligations, not 'for every segmentation' as "
+  "an executed statement.",
+  "Not decided: the behavioural claim itself follows by the hand argument from the invariant; 2048-byte recv boundary effects; handlers re-entering read(); malformed lengths (C10).",
+  "custom AST/CFG checker: role inference by def-use, guard dominance with linear bounds, effect intervals, ownership of buffer writers, must-pass-through", "DESIGN.md 5/C02")
+
 NOT_APPLICABLE = {
   'C16': "Address types: the statement is about numeric/textual agreement over the whole address domain (byte order, mask arithmetic, CIDR parsing, zero-run compression, round trips, rejection of malformed text) - results of computations on runtime values; no shape-level rule is a necessary and telling condition for it (DESIGN.md section 7).",
 }
